@@ -110,8 +110,10 @@ class PyEcoreValue(object):
             return
         if value is not None:
             resource = value.eResource
-            if resource and any(x is value for x in resource.contents):
-                resource.remove(value)
+            # (a resolved proxy stands for the root it wraps)
+            root = getattr(value, '_wrapped', None) or value
+            if resource and any(x is root for x in resource.contents):
+                resource.remove(root)
             prev_container = value._container
             prev_feature = value._containment_feature
             # (by identity: an owner may compare equal to another one)
